@@ -27,7 +27,9 @@ derivative vs -2 (y - mu) / (scale V(mu, w)) with the class's own V, saturated-l
 log_pdf, weights multiply / divide, scaled = unscaled / scale, Pearson estimate, documented sampler moments.
 """
 import ast
+import contextlib
 import inspect
+import io
 import math
 
 import numpy as np
@@ -895,6 +897,24 @@ def canon_result(res, op, n):
     return a.copy()
 
 
+def dev_ref(fam, levels, y, mu):
+    """the textbook unit deviances, float64 NumPy on float64 copies (oracle side: independent of pyGAM and of the model)"""
+    y = np.asarray(y, dtype=float); mu = np.asarray(mu, dtype=float)
+
+    def xl(a, b):
+        return np.where(a == 0, 0.0, a * np.log(np.where(a == 0, 1.0, a) / b))
+    with np.errstate(all='ignore'):
+        if fam == 'normal':
+            return (y - mu) ** 2
+        if fam == 'binomial':
+            return 2 * (xl(y, mu) + xl(levels - y, levels - mu))
+        if fam == 'poisson':
+            return 2 * (xl(y, mu) - (y - mu))
+        if fam == 'gamma':
+            return 2 * ((y - mu) / mu - np.log(y / mu))
+        return (y - mu) ** 2 / (mu ** 2 * y)
+
+
 def gen_int_point(rng, fam, levels):
     """integer-valued (y, mu) inside the support x mean domain (None when there is none: binomial with one trial)"""
     if fam == 'normal':
@@ -1044,7 +1064,9 @@ def run_purity(ctx, D, cases=None):
         y = np.array(c['y']); mu = np.array(c['mu']); w = np.array(c['w'])
         s_eff = eff_scale(fam, scale)
         mag = dev_magnitude(fam, levels, y, mu)
+        ab = dev_abs_roundoff(fam, levels, y, mu)
         bad = None
+        value_fail = None
         for op, got, bit_equal in r[1]:
             if not bit_equal:
                 ctx.count('purity', 'equal within 1e-12 but not bit-for-bit')
@@ -1052,17 +1074,53 @@ def run_purity(ctx, D, cases=None):
                 if op[0] == 'V':
                     mv = model[:, 1 if op[1] else 0, 0]
                     e = rel_err(got, mv, 1e-11 * np.abs(mv) + 1e-300)
+                    orc = V_ref(fam, levels, mu) / (w if op[1] else 1.0)
+                    # binomial: the code forms 1 - mu/levels (absolute error 1 ulp of 1, i.e. 16 EPS |mu| in V with margin), the closed form levels - mu
+                    otol = 1e-11 * np.abs(orc) + (16 * EPS * np.abs(mu) / (w if op[1] else 1.0) if fam == 'binomial' else 0.0) + 1e-300
                 elif op[0] == 'dev':
                     wn = w if op[2] else np.ones(n)
+                    div = s_eff if op[1] else 1.0
                     mv = model[:, 1 if op[2] else 0, 2 if op[1] else 1]
-                    e = rel_err(got, mv, 1e-11 * (mag * wn / (s_eff if op[1] else 1.0)) + 1e-300)
+                    e = rel_err(got, mv, 1e-11 * (mag * wn / div) + 1e-300)
+                    orc = dev_ref(fam, levels, y, mu) * wn / div
+                    otol = (1e-9 * mag + ab) * wn / div + 1e-300
                 else:
                     continue
+                # ---- oracle independent of pyGAM and of the model: the closed forms in float64
+                judged = np.isfinite(orc) & (np.abs(orc) < 1e290)
+                e_impl = np.where(judged, rel_err(got, orc, 10 * otol), 0.0)      # x10 margin before calling it a failing input
+                e_model = np.where(judged, rel_err(mv, orc, otol), 0.0)
+            if not np.all(e_impl <= 1.0) and value_fail is None:
+                i = int(np.argmax(np.where(np.isfinite(e_impl), e_impl, np.inf)))
+                if np.all(e_model <= 1.0):
+                    value_fail = (op, i, got, orc, mv)
+                elif bad is None:
+                    bad = (op_name(op) + ' [closed form %r]' % orc.tolist(), got.tolist(), mv.tolist())
+                continue
             if not np.all(e <= 1.0):
                 if INT_MU_DEVIANCE_SUSPECT and c['container'] == 'int64' and op[0] == 'dev':
                     ctx.count('suspected-defect', 'deviance with integer-dtype mu differs from the model (ylogydu truncates to the dtype of mu): %s' % fam)
                 elif bad is None:
                     bad = (op_name(op), got.tolist(), mv.tolist())
+        if value_fail is not None:
+            op, i, got, orc, mv = value_fail
+            try:        # once more: a single call on fresh arguments with a new object
+                with np.errstate(all='ignore'):
+                    again = canon_result(call_op(make_dist(D, fam, scale, levels), op, fresh_args(c), c['edof'], c['numpy_seed']), op, n)
+                still = isinstance(again, str) or not (abs(again[i] - orc[i]) <= abs(got[i] - orc[i]) / 2)
+            except Exception as e:
+                again, still = '%s: %s' % (type(e).__name__, e), True
+            if still:
+                if fails < MAX_FAILS:
+                    fails += 1
+                    ctx.fail(st, dict(fam=fam, check='value', call=op_name(op), container=c['container']), c,
+                             observed=dict(call=op_name(op), element=i, y=c['y'][i], mu=c['mu'][i], w=c['w'][i], returned=got.tolist(),
+                                           returned_on_fresh_arguments=again if isinstance(again, str) else again.tolist(), model=mv.tolist()),
+                             expected=orc.tolist(),
+                             oracle='textbook variance function / unit deviance in float64 NumPy on float64 copies of the arguments, times weights, over scale '
+                                    '(the Lean model agrees with it here)')
+                continue
+            ctx.count('purity', 'value departure not reproduced')
         if bad is not None:
             ctx.disagree(st, c, impl=dict(call=bad[0], value=bad[1]), model=bad[2],
                          detail='value returned in the middle of a call history differs from the model although it equals the value on fresh copies')
@@ -1261,7 +1319,7 @@ def fit_history_once(D, c):
         X, y, w = fit_data(c, f)
         n = len(y)
         try:
-            with np.errstate(all='ignore'):
+            with np.errstate(all='ignore'), contextlib.redirect_stdout(io.StringIO()):      # pyGAM prints 'did not converge'
                 if w is None:
                     gam.fit(X.copy(), y.copy())
                 else:
@@ -1283,11 +1341,152 @@ def fit_history_once(D, c):
     return None, blocks, scales
 
 
+GAM_SCALE_WHAT = ("one model object (GAM(distribution=name | instance | instance with a supplied scale), LinearGAM, GammaGAM, ...) fitted 2-3 "
+                   "times on different data: statistics_['scale'] of every fit = Pearson / (n - edof) of that fit (NumPy on predict_mu, "
+                   "statistics_['edof']) or the supplied scale, 1e-8; and = model estimateHistory on the same (y, mu, edof, w), 1e-9.  "
+                   "Also LinearGAM / GammaGAM / InvGaussGAM / ExpectileGAM / GAM(distribution=instance) with the scale changed between the fits "
+                   "(set_params(scale=) or attribute, resp. a new distribution object; None -> value, value -> None, value -> other value): every "
+                   "fit reports the scale supplied at that time, else the Pearson estimate of that fit; vs model scaleHistory")
+
+
+EVENT_MODELS = [('LinearGAM', 'normal'), ('GammaGAM', 'gamma'), ('InvGaussGAM', 'inv_gauss'), ('ExpectileGAM', 'normal'),
+                ('GAM', 'normal'), ('GAM', 'gamma'), ('GAM', 'inv_gauss')]
+# the scale that is supplied at each fit: None -> value, value -> None, value -> other value, and back
+SCALE_PATTERNS = [(None, 'a'), ('a', None), ('a', 'b'), (None, 'a', None), ('a', None, 'b'), (None, None, 'a'), ('a', 'a', None)]
+
+
+def gen_scale_event_cases(ctx):
+    reps = 1 if ctx.tier == 'quick' else 5
+    out = []
+    for cls, fam in EVENT_MODELS:
+        rng = ctx.subrng('scale-events', cls, fam)
+        for pat in SCALE_PATTERNS:
+            for _ in range(reps):
+                val = dict(a=loguni(rng, 0.05, 5.0), b=loguni(rng, 0.05, 5.0))
+                seq = [None if p is None else val[p] for p in pat]
+                events = []
+                for j, sc in enumerate(seq):
+                    if j > 0 and (pat[j] != pat[j - 1] or rng.random() < 0.5):
+                        events.append(dict(ev='dist' if cls == 'GAM' else 'set', via=rng.choice(['set_params', 'attribute']), scale=sc))
+                    events.append(dict(ev='fit', n=rng.randint(40, 90), seed=rng.randrange(2 ** 31), weighted=rng.random() < 0.6,
+                                       disp=loguni(rng, 0.01, 0.4), sd=loguni(rng, 0.05, 3.0)))
+                out.append(dict(kind='scale_events', cls=cls, fam=fam, levels=1, init=seq[0], n_splines=rng.choice([5, 8]),
+                                pattern=['None' if p is None else p for p in pat], events=events))
+    return out
+
+
+def scale_events_once(D, c):
+    """returns (None, model-line events, scales) or (event index, observed, expected)"""
+    import pygam
+    cls, fam = c['cls'], c['fam']
+    term = pygam.s(0, n_splines=c['n_splines'])
+    current = c['init']
+    try:
+        if cls == 'GAM':
+            gam = pygam.GAM(term, distribution=D.DISTRIBUTIONS[fam](scale=current), link=FIT_LINK[fam])
+        else:
+            gam = getattr(pygam, cls)(term, scale=current)
+    except Exception as e:
+        return 0, 'constructor: %s: %s' % (type(e).__name__, e), 'a model'
+    evs, scales = [], []
+    for j, ev in enumerate(c['events']):
+        try:
+            if ev['ev'] == 'set':
+                if ev['via'] == 'set_params':
+                    gam.set_params(scale=ev['scale'])
+                else:
+                    gam.scale = ev['scale']
+                current = ev['scale']
+                evs.append(('set', current))
+                continue
+            if ev['ev'] == 'dist':
+                nd = D.DISTRIBUTIONS[fam](scale=ev['scale'])
+                if ev['via'] == 'set_params':
+                    gam.set_params(distribution=nd)
+                else:
+                    gam.distribution = nd
+                current = ev['scale']
+                evs.append(('dist', current))
+                continue
+            X, y, w = fit_data(c, ev)
+            n = len(y)
+            with np.errstate(all='ignore'), contextlib.redirect_stdout(io.StringIO()):      # pyGAM prints 'did not converge'
+                if w is None:
+                    gam.fit(X.copy(), y.copy())
+                else:
+                    gam.fit(X.copy(), y.copy(), weights=w.copy())
+                got = float(gam.statistics_['scale'])
+                dscale = gam.distribution.scale
+                dscale = float('nan') if dscale is None else float(dscale)
+                edof = float(gam.statistics_['edof'])
+                mu = np.asarray(gam.predict_mu(X.copy()), dtype=float)
+            if mu.shape != (n,):
+                raise ValueError('predict_mu returned shape %r for %d rows' % (mu.shape, n))
+        except Exception as e:
+            return j, '%s: %s' % (type(e).__name__, e), 'the event %r carried out' % ev['ev']
+        ww = np.ones(n) if w is None else w
+        b = dict(n=n, edof=edof, w=ww.tolist(), y=y.tolist(), mu=mu.tolist())
+        if current is not None:
+            want, tol = float(current), 1e-13
+        else:
+            want, tol = pearson_ref(fam, 1, b), 1e-8
+        if not (np.isfinite(want) and abs(got - want) <= tol * abs(want) and abs(dscale - want) <= tol * abs(want)):
+            return j, dict(statistics_scale=got, distribution_scale=dscale, edof=edof, n=n, scale_supplied_now=current,
+                           events_before=[(e['ev'], e.get('via'), e.get('scale')) for e in c['events'][:j]]), want
+        evs.append(('fit', b))
+        scales.append(got)
+    return None, evs, scales
+
+
+def gamscale_line(c, evs):
+    toks = ['C06 gamscale', c['cls'], c['fam'], f2bits(c['levels']), 'none' if c['init'] is None else f2bits(c['init'])]
+    for kind, v in evs:
+        if kind == 'fit':
+            toks += ['fit', str(v['n']), f2bits(v['edof'])] + [f2bits(x) for x in v['w']] + [f2bits(x) for x in v['y']] + [f2bits(x) for x in v['mu']]
+        else:
+            toks += [kind, 'none' if v is None else f2bits(v)]
+    return ' '.join(toks)
+
+
+def run_scale_events(ctx, D, cases=None):
+    st = 'gam.scale.history'
+    ctx.stream(st, GAM_SCALE_WHAT)
+    if cases is None:
+        cases = gen_scale_event_cases(ctx)
+    fails = 0
+    pending = []
+    for c in cases:
+        sig = dict(cls=c['cls'], fam=c['fam'], init=repr(c['init']), n_splines=c['n_splines'],
+                   events=[(e['ev'], e.get('via'), repr(e.get('scale')), e.get('n'), e.get('seed')) for e in c['events']])
+        ctx.case(st, sig, nontrivial=True, sample=dict(cls=c['cls'], fam=c['fam'], pattern=c['pattern']))
+        ctx.count('scale events', '%s(%s) %s' % (c['cls'], c['fam'], '>'.join(c['pattern'])))
+        r = scale_events_once(D, c)
+        if r[0] is not None:
+            r2 = scale_events_once(D, c)
+            if r2[0] is not None and fails < MAX_FAILS:
+                fails += 1
+                ctx.fail(st, dict(fam=c['fam'], check='scale after the scale parameter changed', cls=c['cls'],
+                                  supplied=isinstance(r[1], dict) and r[1].get('scale_supplied_now') is not None), c,
+                         observed=dict(event_number=r[0] + 1, observed=r[1]), expected=r[2],
+                         oracle="the scale supplied at the time of the fit (statistics_['scale'] and distribution.scale), else sum(w (y - mu)^2 / V(mu)) / (n - edof) "
+                                "with mu = predict_mu(X), edof = statistics_['edof'], textbook V (NumPy)")
+            continue
+        pending.append((c, r[1], r[2]))
+    if pending:
+        outs = ctx.driver.run([gamscale_line(c, evs) for c, evs, _ in pending])
+        for (c, evs, scales), o in zip(pending, outs):
+            try:
+                ms = [None if t == 'none' else bits2f(t) for t in o.split(' | ')]
+            except Exception:
+                ms = []
+            if len(ms) != len(scales) or not all(m is not None and abs(g - m) <= 1e-9 * abs(m) for g, m in zip(scales, ms)):
+                ctx.disagree(st, c, impl=scales, model=ms if ms else o,
+                             detail="statistics_['scale'] along the events differs from the model (scaleHistory) although the oracle holds for every fit")
+
+
 def run_fit_history(ctx, D, cases=None):
     st = 'gam.scale.history'
-    ctx.stream(st, "one model object (GAM(distribution=name | instance | instance with a supplied scale), LinearGAM, GammaGAM, ...) fitted 2-3 "
-                   "times on different data: statistics_['scale'] of every fit = Pearson / (n - edof) of that fit (NumPy on predict_mu, "
-                   "statistics_['edof']) or the supplied scale, 1e-8; and = model estimateHistory on the same (y, mu, edof, w), 1e-9")
+    ctx.stream(st, GAM_SCALE_WHAT)
     if cases is None:
         cases = gen_fit_history_cases(ctx)
     fails = 0
@@ -1344,6 +1543,7 @@ def run(ctx):
     run_purity(ctx, D)
     run_phi_history(ctx, D)
     run_fit_history(ctx, D)
+    run_scale_events(ctx, D)
 
 
 def replay(ctx, rp):
@@ -1367,5 +1567,7 @@ def replay(ctx, rp):
         run_phi_history(ctx, D, [c])
     elif kind == 'fit_history':
         run_fit_history(ctx, D, [c])
+    elif kind == 'scale_events':
+        run_scale_events(ctx, D, [c])
     else:
         run(ctx)
